@@ -418,6 +418,18 @@ def rule_c13_choice(prog: Program, col: Collector) -> None:
     def size_key(k, seq) -> bool:
         return k is not None and k[0] == "lambda" and len(k[1]) == 1 and \
             k[2] == ("call", ("global", "len"), (("index", ("attr", G, "explorable_coalitions"), k[1][0]),), ()) and _is_valid_list(seq, G)
+    # max(zip(valid, [expl[a] for a in valid]), key=<size of the second component>)[0] is the same choice, on pairs
+    if v[0] == "index" and v[2] == ("const", 0) and is_call_to(v[1], "max") and len(v[1][2]) == 1 and is_call_to(v[1][2][0], "zip") and len(v[1][2][0][2]) == 2 \
+            and set(dict(v[1][3])) == {"key"}:
+        valid_z, coals_z = v[1][2][0][2]
+        k = ft.lambda_of(dict(v[1][3])["key"])
+        pair_key = k[0] == "lambda" and len(k[1]) == 1 and k[2] == ("call", ("global", "len"), (("index", k[1][0], ("const", 1)),), ())
+        coals_ok = coals_z[0] == "comp" and len(coals_z[3]) == 1 and coals_z[3][0][1] == valid_z and not coals_z[3][0][2] \
+            and coals_z[2] == ("index", ("attr", G, "explorable_coalitions"), coals_z[3][0][0])
+        if pair_key and coals_ok and _is_valid_list(valid_z, G):
+            col.ok(ref.where(), ref.short, "largest = the action of the first (action, coalition) pair of maximal coalition size")
+            col.ok(ref.where(), ref.short, "the size compared is the MAXIMAL size among the valid coalitions")
+            return
     if is_call_to(v, "max") and len(v[2]) == 1 and size_key(dict(v[3]).get("key"), v[2][0]) and set(dict(v[3])) == {"key"}:
         # max(valid, key=size) returns the FIRST maximal element: the same choice
         col.ok(ref.where(), ref.short, "largest = max(valid_actions, key=coalition size): first valid action of maximal size")
